@@ -46,7 +46,10 @@ func (f *{{.FieldType}}) Read(r io.ReadSeeker, pg parquet.Page) error {
 	}
 
 	v := make([]{{removeStar .TypeName}}, f.Values()-len(f.vals))
-	err = binary.Read(rr, binary.LittleEndian, &v)
+	// the slice itself, not a pointer to it: encoding/binary then decodes
+	// without reflection, which for float32 converts through float64 and
+	// rewrites the payload of signalling NaNs
+	err = binary.Read(rr, binary.LittleEndian, v)
 	f.vals = append(f.vals, v...)
 	return err
 }
